@@ -121,7 +121,7 @@ class C13(Check):
                 return a
 
         # declared default of a typed method parameter
-        if isinstance(v, (str, int, float, bool, bytes)) or v is None:
+        if True:
             _N[0] += 1
             src = (f"from typing import Iterable\nclass Ev:\n    def m(self, p: int = {v!r}) -> float: ...\n")
             g = {}
@@ -221,10 +221,23 @@ class C13(Check):
         res["oc"] = sorted(set(res["oc"]))
         return res
 
+    def run_menu(self, k):
+        res = {"n": 0, "nt": [], "oc": [], "tags": {}, "viol": []}
+        self._check_value(PAIR_MENU[k], res, "m")
+        res["oc"] = sorted(set(res["oc"]))
+        return res
+
+    def pair_menu(self, tier):
+        return [("pairmenu", "run_menu", k) for k in range(len(PAIR_MENU))]
+
     def render(self, space_name, payload):
+        if space_name == "pairmenu":
+            return repr(PAIR_MENU[payload])
         return repr(payload if not isinstance(payload, int) else _nested()[payload])
 
 
+# values that are equal (==, same hash) but of different type or sign, embedded one after the other
+PAIR_MENU = [0, 0.0, -0.0, False, 1, 1.0, True, 2, 2.0, "a", b"a", "1", None, 10 ** 16, 1e16, "", b""]
 _NEST = []
 
 
